@@ -867,7 +867,7 @@ def check(run: Run) -> None:
     run.sample({"program family": gen[0][0], "program": [bytes(gen[0][1][50][0]).hex(), gen[0][1][50][1]]})
     run.sample({"spend": {k: v for k, v in evs2[len(vec_code) + 3].items()}})
     run.section("core_vectors", {"vectors": len(vec), "run_through_btclib": n_vec})
-    run.section("programs", {"generated_and_run": n_prog, "nontrivial": nontrivial, "reach_a_signature_opcode": unmodelled})
+    run.section("generated_programs", {"generated_and_run": n_prog, "nontrivial": nontrivial, "reach_a_signature_opcode": unmodelled})
     run.count(evaluations=n_prog + len(evs) + len(sig_evs), validated=n_prog + len(evs2) + len(sig_evs2), nontrivial=nontrivial + sum(1 for e in evs2 if e.get("kind") != "core-vector"))
 
 
